@@ -126,6 +126,54 @@ def attr_locs(prog, M, T, f, selfcls, mode, depth=0, seen=None):
     return out
 
 
+def gate_locs(prog, M, T, f, selfcls, depth=0, seen=None):
+    """{(element class name, xml attribute, constant text)}: attribute locations the getter compares with a constant (an enum member or a
+    literal) - the getter's answer is its fall-back unless the stored attribute equals that constant.  Follows properties on typed
+    receivers like attr_locs."""
+    from sa.pysrc import Unknown
+
+    seen = seen if seen is not None else set()
+    if (f, selfcls) in seen or depth > 4:
+        return set()
+    seen.add((f, selfcls))
+    out = set()
+    fc = FCtx(f, selfcls)
+
+    def decl_attr(c, name):
+        for k in prog.mro(c):
+            if M.is_oxml_class(k):
+                for d in M.own_decls(k)[1]:
+                    if d.prop == name:
+                        return (k.name, d.attr)
+        return None
+
+    def types_of(e):
+        if isinstance(e, ast.Name) and e.id == "self":
+            return frozenset([("inst", selfcls)]) if selfcls is not None else frozenset()
+        return T.expr(e, fc)
+
+    for n in walk_own(f.node):
+        if isinstance(n, ast.Compare) and len(n.ops) == 1 and isinstance(n.ops[0], (ast.Eq, ast.NotEq, ast.Is, ast.IsNot)):
+            for a_, b_ in ((n.left, n.comparators[0]), (n.comparators[0], n.left)):
+                if not isinstance(a_, ast.Attribute):
+                    continue
+                k = prog.const(b_, f.module, None, f.cls)
+                if isinstance(k, Unknown) or k is None or isinstance(k, bool):
+                    continue
+                for t in types_of(a_.value):
+                    if t[0] == "inst" and M.is_oxml_class(t[1]):
+                        loc = decl_attr(t[1], a_.attr)
+                        if loc:
+                            out.add(loc + (ast.unparse(b_),))
+        if isinstance(n, ast.Attribute) and isinstance(n.ctx, ast.Load):
+            for t in types_of(n.value):
+                if t[0] == "inst":
+                    g = prog.lookup(t[1], n.attr)
+                    if g is not None and g.kind in ("property", "lazyproperty") and (M.is_oxml_class(t[1]) or depth < 2):
+                        out |= gate_locs(prog, M, T, g, t[1], depth + 1, seen)
+    return out
+
+
 # -- R9.2 helpers -------------------------------------------------------------------------------------------
 class Aff:
     """value = a * x (+ b); rounding: None|'round'|'trunc'|'floor'; mod: modulus applied (on the XML integer side)"""
@@ -277,6 +325,31 @@ def run(ctx):
                     sorted("%s/@%s" % x for x in R)[:4], sorted("%s/@%s" % x for x in W)[:4]), file=st.file, line=st.line)
     ctx.count("rw_property_pairs", npairs)
     ctx.count("pairs_analysed", nanalysed)
+
+    # -- R9.7 ----------------------------------------------------------------------------------------
+    ctx.rule("R9.7", "an attribute the getter compares with a constant before it answers is written by the setter")
+    ngates = 0
+    for c in prog.all_classes():
+        if M.is_oxml_class(c) or c.module.name.startswith(("pptx.oxml", "pptx.opc.oxml", "pptx.enum")):
+            continue
+        for name, st in sorted(c.setters.items()):
+            g = c.methods.get(name) or prog.lookup(c, name)
+            if g is None or g.kind not in ("property", "lazyproperty"):
+                continue
+            G = gate_locs(prog, M, T, g, c)
+            if not G:
+                continue
+            W = attr_locs(prog, M, T, st, c, "w")
+            for ecls, attr, const in sorted(G):
+                ngates += 1
+                key = "%s.%s:%s/@%s" % (c.name, name, ecls, attr)
+                if (ecls, attr) in W:
+                    ctx.ok("R9.7", key, sample={"getter_requires": "%s/@%s == %s" % (ecls, attr, const), "setter_writes": "%s/@%s" % (ecls, attr)})
+                else:
+                    ctx.violation("R9.7", key, "the getter answers with its fall-back unless %s/@%s equals %s, but the setter never writes that "
+                                  "attribute: on an element that carries another value the assigned value cannot be read back"
+                                  % (ecls, attr, const), file=st.file, line=st.line)
+    ctx.count("getter_gates", ngates)
 
     # -- R9.2 ----------------------------------------------------------------------------------------
     ctx.rule("R9.2", "to_xml and from_xml of a simple type apply reciprocal scale factors")
